@@ -357,9 +357,19 @@ pub fn guarded<T>(f: impl FnOnce() -> T) -> Result<T, String> {
     }
 }
 
+thread_local! { static LAST_PANIC_FILE: std::cell::RefCell<String> = std::cell::RefCell::new(String::new()); }
+
+/// The source file of the last panic caught on this thread (set by the hook of `quiet_panics`), cleared by reading.
+pub fn take_panic_file() -> String { LAST_PANIC_FILE.with(|c| std::mem::take(&mut *c.borrow_mut())) }
+
 pub fn quiet_panics() {
-    if std::env::var("VERIF_LOUD").is_ok() { return; }
-    std::panic::set_hook(Box::new(|_| {}));
+    let loud = std::env::var("VERIF_LOUD").is_ok();
+    let default = std::panic::take_hook();
+    std::panic::set_hook(Box::new(move |info| {
+        let file = info.location().map(|l| l.file().to_string()).unwrap_or_default();
+        LAST_PANIC_FILE.with(|c| *c.borrow_mut() = file);
+        if loud { default(info); }
+    }));
 }
 
 /// Output: one JSON object per line on stdout.
